@@ -24,6 +24,20 @@ static void gen_number(vh_rng_t * r, stream_t * s) {
         static const int around[] = { 16, 32, 64, 128 };
         int target = around[vh_below(r, 4)] - 4 + (int) vh_below(r, 9), nd, i; char e[16]; int el;
         el = snprintf(e, sizeof e, "%s%d", vh_chance(r, 1, 2) ? "-" : (vh_chance(r, 1, 2) ? "+" : ""), (int) vh_below(r, 300));
+        if (vh_chance(r, 1, 4)) {
+            /* the exponent's digit run is as unbounded as the mantissa's (leading zeros): a short mantissa, blanks at the mark, 6..600 exponent digits */
+            static const int zl[] = { 3, 5, 6, 7, 8, 15, 31, 60, 62, 63, 64, 65, 70, 71, 72, 130, 600 }; int z = zl[vh_below(r, sizeof zl / sizeof zl[0])], i2, md = 1 + (int) vh_below(r, vh_chance(r, 1, 2) ? 3 : 63);
+            if (vh_chance(r, 1, 3)) putc_(s, '-');
+            for (i2 = 0; i2 < md; i2++) putc_(s, '0' + (int) vh_below(r, 10));
+            if (vh_chance(r, 3, 4)) putc_(s, ' ');
+            putc_(s, vh_chance(r, 1, 2) ? 'E' : 'e');
+            if (vh_chance(r, 1, 2)) putc_(s, ' ');
+            if (vh_chance(r, 1, 2)) putc_(s, vh_chance(r, 1, 2) ? '+' : '-');
+            for (i2 = 0; i2 < z; i2++) putc_(s, '0');
+            putc_(s, '0' + (int) vh_below(r, 10));
+            vh_count("numbers.exponent_zero_padded_to_many_digits", 1);
+            return;
+        }
         nd = target - 1 - el - (vh_chance(r, 1, 2) ? 1 : 0); if (nd < 1) nd = 1;
         if (vh_chance(r, 1, 3)) putc_(s, '-');
         for (i = 0; i < nd; i++) { if (i == nd / 2 && vh_chance(r, 1, 2)) putc_(s, '.'); putc_(s, '0' + (int) vh_below(r, 10)); }
@@ -236,6 +250,6 @@ int main(int argc, char ** argv) {
     static const vh_phase_t phases[] = { { "generated and mutated streams", p0_count, p0_run }, { "truncation at every byte", p1_count, p1_run }, { "direct line parse", p2_count, p2_run }, { "long histories", p3_count, p3_run }, { "error queue at its size limits", p4_count, p4_run }, { "long units reported as error texts", p5_count, p5_run } };
     vh_require("mode.0"); vh_require("mode.1"); vh_require("mode.2"); vh_require("mode.3"); vh_require("geometry.stream_longer_than_buffer");
     vh_require("geometry.stream_ends_at_physical_end_of_buffer"); vh_require("streams.mutated"); vh_require("truncation.streams"); vh_require("history.sequences");
-    vh_require("queue_boundary.cases"); vh_require("sizes.long_units_reported_through_the_error_query");
+    vh_require("queue_boundary.cases"); vh_require("sizes.long_units_reported_through_the_error_query"); vh_require("numbers.exponent_zero_padded_to_many_digits");
     return vh_main(argc, argv, "C01", phases, 6);
 }
